@@ -1,5 +1,140 @@
-import GcmpyModel.Model.SplitDegree
-import GcmpyModel.Model.Cover
-namespace Gcmpy.Loaders
-theorem placeholder_C08 : True := trivial
-end Gcmpy.Loaders
+import GcmpyModel.Lemmas.Cover
+/-!
+Property C08: `JointDegreeCover` (repaired code) on a cover whose vertex ids are contiguous from 0 or 1.
+`Contiguous`, `cliqueCount` are defined in `GcmpyModel/Lemmas/Cover.lean`.
+-/
+namespace Gcmpy.Cover
+open Gcmpy Gcmpy.Loaders
+
+variable {cover : List (List Nat)} {z n : Nat}
+
+/-- 1a. the detected index base is the real one -/
+theorem zeroIndex_eq (h : Contiguous cover z n) : zeroIndex cover = some z := zeroIndex_eq' h
+
+/-- 1b. one counter row per vertex -/
+theorem vertexIds_length (h : Contiguous cover z n) : (vertexIds cover).length = n :=
+  vertexIds_length' h
+
+/-- 2. the reported motif sizes are exactly the clique sizes that occur, ascending, without repeats
+(holds for every cover) -/
+theorem motif_sizes_spec (cover : List (List Nat)) :
+    (motifSizes cover).Pairwise (· < ·) ∧
+      ∀ s, s ∈ motifSizes cover ↔ ∃ c ∈ cover, c.length = s :=
+  ⟨motifSizes_pairwise cover, fun _ => mem_motifSizes⟩
+
+/-- 3. the counting loop raises no IndexError and entry (v, s-1) is the number of cliques of size s
+containing v -/
+theorem counts_before_drop (h : Contiguous cover z n) :
+    ∃ jds0, countAll z cover (List.replicate n (List.replicate (largest cover) 0)) = some jds0 ∧
+      jds0.length = n ∧ (∀ r ∈ jds0, r.length = largest cover) ∧
+      ∀ v s, z ≤ v → v < z + n → 1 ≤ s → s ≤ largest cover →
+        (jds0.getD (v - z) []).getD (s - 1) 0 = cliqueCount cover s v := by
+  obtain ⟨jds0, e, s, f⟩ := counts_spec h
+  exact ⟨jds0, e, s.1, s.mem_length, fun v s' hv _ hs _ => f v s' hv hs⟩
+
+/-- 4. the loader succeeds; there is one row per vertex and one surviving column per occurring clique
+size (`cover_counts` says that column `j` belongs to the `j`-th smallest occurring size) -/
+theorem cover_columns (h : Contiguous cover z n) :
+    ∃ jds, coverJds cover = some jds ∧ jds.length = n ∧
+      ∀ r ∈ jds, r.length = (motifSizes cover).length := by
+  obtain ⟨jds0, _, s, _, e⟩ := coverJds_eq h
+  refine ⟨_, e, by simp [s.1], ?_⟩
+  intro r hr
+  obtain ⟨r0, _, rfl⟩ := List.mem_map.1 hr
+  simp
+
+/-- 5. row of vertex `v`, column of the `j`-th occurring size = number of cover cliques of that size
+containing `v` -/
+theorem cover_counts (h : Contiguous cover z n) {jds : List (List Nat)}
+    (hj : coverJds cover = some jds) {v j : Nat} (hv1 : z ≤ v) (hv2 : v < z + n)
+    (hjl : j < (motifSizes cover).length) :
+    (jds.getD (v - z) []).getD j 0 = cliqueCount cover ((motifSizes cover).getD j 0) v := by
+  obtain ⟨jds0, _, s, f, e⟩ := coverJds_eq h
+  rw [e] at hj
+  cases hj
+  have hk : v - z < jds0.length := by rw [s.1]; omega
+  have := entry_map_sizes jds0 (motifSizes cover) hk hjl
+  simp only [entry] at this f
+  rw [this, f]
+  have hmem : (motifSizes cover).getD j 0 ∈ motifSizes cover := by
+    simp [List.getD_eq_getElem?_getD, List.getElem?_eq_getElem hjl]
+  obtain ⟨q, hq, hlen⟩ := mem_motifSizes.1 hmem
+  have := (h.clique_ok q hq).1
+  rw [show (motifSizes cover).getD j 0 - 1 + 1 = (motifSizes cover).getD j 0 by omega,
+    show v - z + z = v by omega]
+
+/-- 6. the distribution is the frequency table of the rows -/
+theorem cover_jdd {jds : List (List Nat)} (hj : coverJds cover = some jds) :
+    coverJdd cover = some (empirical jds) := by
+  simp [coverJdd, hj]
+
+/-- 7. handshake: the column of size `s` sums to `s ·` (number of cover cliques of size `s`) -/
+theorem cover_handshake (h : Contiguous cover z n) {jds : List (List Nat)}
+    (hj : coverJds cover = some jds) {j : Nat} (hjl : j < (motifSizes cover).length) :
+    (jds.map (·.getD j 0)).sum =
+      (motifSizes cover).getD j 0 *
+        (cover.filter fun c => c.length = (motifSizes cover).getD j 0).length := by
+  obtain ⟨jds0, _, s, f, e⟩ := coverJds_eq h
+  rw [e] at hj
+  cases hj
+  rw [colsum_map_sizes jds0 (motifSizes cover) hjl, s.1]
+  have hmem : (motifSizes cover).getD j 0 ∈ motifSizes cover := by
+    simp [List.getD_eq_getElem?_getD, List.getElem?_eq_getElem hjl]
+  obtain ⟨q, hq, hlen⟩ := mem_motifSizes.1 hmem
+  have := (h.clique_ok q hq).1
+  simp only [f]
+  rw [show (motifSizes cover).getD j 0 - 1 + 1 = (motifSizes cover).getD j 0 by omega]
+  exact sum_cliqueCount cover _ (fun q hq => (h.clique_ok q hq).2.2)
+
+/-- 7'. in particular every column sum is divisible by its clique size -/
+theorem cover_handshake_dvd (h : Contiguous cover z n) {jds : List (List Nat)}
+    (hj : coverJds cover = some jds) {j : Nat} (hjl : j < (motifSizes cover).length) :
+    (motifSizes cover).getD j 0 ∣ (jds.map (·.getD j 0)).sum :=
+  ⟨_, cover_handshake h hj hjl⟩
+
+/-- 4–7 in one statement -/
+theorem cover_spec (h : Contiguous cover z n) :
+    ∃ jds, coverJds cover = some jds ∧ coverJdd cover = some (empirical jds) ∧ jds.length = n ∧
+      (∀ r ∈ jds, r.length = (motifSizes cover).length) ∧
+      (∀ v j, z ≤ v → v < z + n → j < (motifSizes cover).length →
+        (jds.getD (v - z) []).getD j 0 = cliqueCount cover ((motifSizes cover).getD j 0) v) ∧
+      ∀ j, j < (motifSizes cover).length →
+        (jds.map (·.getD j 0)).sum =
+          (motifSizes cover).getD j 0 *
+            (cover.filter fun c => c.length = (motifSizes cover).getD j 0).length := by
+  obtain ⟨jds, e, hl, hr⟩ := cover_columns h
+  exact ⟨jds, e, cover_jdd e, hl, hr, fun v j h1 h2 h3 => cover_counts h e h1 h2 h3,
+    fun j hj => cover_handshake h e hj⟩
+
+/-! ### non-vacuity -/
+
+/-- sizes {2,5} (non-adjacent), ids 1..6 (1-based): columns are (size 2, size 5) -/
+example : coverJds [[1, 2, 3, 4, 5], [5, 6], [1, 6]] =
+    some [[1, 1], [0, 1], [0, 1], [0, 1], [1, 1], [2, 0]] := by decide +kernel
+
+example : motifSizes [[1, 2, 3, 4, 5], [5, 6], [1, 6]] = [2, 5] := by decide
+
+example : countAll 1 [[1, 2, 3, 4, 5], [5, 6], [1, 6]] (List.replicate 6 (List.replicate 5 0)) =
+    some [[0, 1, 0, 0, 1], [0, 0, 0, 0, 1], [0, 0, 0, 0, 1], [0, 0, 0, 0, 1], [0, 1, 0, 0, 1],
+      [0, 2, 0, 0, 0]] := by decide +kernel
+
+example : Contiguous [[1, 2, 3, 4, 5], [5, 6], [1, 6]] 1 6 := by
+  refine ⟨Or.inr rfl, by omega, by decide, by decide, ?_⟩
+  intro v
+  simp only [List.mem_cons, List.not_mem_nil, or_false, exists_eq_or_imp, exists_eq_left]
+  omega
+
+/-- 0-based ids, a vertex in two triangles -/
+example : Contiguous [[0, 1, 2], [2, 3, 4], [0, 4]] 0 5 := by
+  refine ⟨Or.inl rfl, by omega, by decide, by decide, ?_⟩
+  intro v
+  simp only [List.mem_cons, List.not_mem_nil, or_false, exists_eq_or_imp, exists_eq_left]
+  omega
+
+example : coverJds [[0, 1, 2], [2, 3, 4], [0, 4]] =
+    some [[1, 1], [0, 1], [0, 2], [0, 1], [1, 1]] := by decide +kernel
+
+/-- without contiguity the loader can raise: ids {1, 3} give two rows but row index 2 -/
+example : coverJds [[1, 3]] = none := by decide +kernel
+
+end Gcmpy.Cover
